@@ -47,6 +47,10 @@ thread_local! {
     static LAST_PANIC: std::cell::RefCell<String> = std::cell::RefCell::new(String::new());
 }
 
+pub fn last_panic() -> String {
+    LAST_PANIC.with(|l| l.borrow().clone())
+}
+
 fn main() {
     let a: Vec<String> = std::env::args().collect();
     if a.len() < 2 {
